@@ -72,7 +72,8 @@ Pso(r) ==
 \* ---- C19: ant colony
 Aco(r) ==
     /\ r.x.finite # 0 /\ r.x.sym # 0                 \* trails finite, non-negative, symmetric
-    /\ r.x.bounds # 0                                \* max-min variant: every trail within [min, max]
+    \* max-min variant: an update leaves every trail within [min, max] (the initial level is the caller's choice)
+    /\ Name(r) = "MinMaxPheromoneUpdate" => r.x.bounds # 0
     /\ Name(r) = "AcoGeneration" =>
           /\ r.x.perm_ok = 1                         \* every tour a permutation of all cities starting at 0
           /\ r.x.greedy_ok = 1                       \* the first tour is greedy w.r.t. the current trails
@@ -175,6 +176,8 @@ End(r) == /\ r.ev = "end"
           \* reported best = minimum ever returned  (KF: ILS never offers the perturbed solution to the best-update)
           /\ (On("C07") /\ r.result = "ok" /\ r.calls > 0) =>
                 Dev(prev.best = r.minseen, "KF_IlsScopeWiring_Best", IsIls /\ prev.best > r.minseen)
+          \* C19: generation always yields its tours and the updates are well-formed: an ant-colony run never aborts
+          /\ (On("C19") /\ hdr.xk = "aco") => r.result = "ok"
           /\ done' = TRUE /\ frames' = <<>>
           /\ UNCHANGED <<hdr, minr>> /\ prev' = prev
 
